@@ -21,13 +21,13 @@ NA = {
 CHECKS = {
  "C14": dict(engine="libsim", level="fault_enumeration", design_ref="DESIGN.md §3 C14",
    technique="deterministic simulation with fault injection: fail-stop reader/writer doubles at every fault position, wrappers under a seeded goroutine scheduler (synctest), tape replay+shrinking",
-   text="For every explored document every writer-call position (two variants) and every reader byte position (two variants) is injected through the plain call (strided for long documents; counted), a spread through Writer/ResponseWriter/MiddlewareWithError/Reader/Match under the seeded scheduler and through one level of HTML embedding; the error must surface (errors.Is the injected one), no panic, no deadlock, Close returns. Enumeration of a finite fault space per input is the natural strength here; inputs are sampled from the tree's own tests/corpora.",
+   text="For every explored document every writer-call position (two variants) and every reader byte position (two variants) is injected through the plain call (strided for long documents; counted), a spread through Writer/ResponseWriter/MiddlewareWithError/Reader/Match under the seeded scheduler and through one level of HTML embedding; the error must surface (errors.Is the injected one; the writer's error value is an opaque one or one of io.EOF, io.ErrUnexpectedEOF, io.ErrShortWrite, io.ErrClosedPipe, a wrapped EOF), no panic, no deadlock, Close returns. One case in 1024 goes through an external-command minifier (AddCmd; stdin or $in file, stdout or $out file; a real process, plain call only), where any non-nil error counts. Enumeration of a finite fault space per input is the natural strength here; inputs are sampled from the tree's own tests/corpora.",
    note="Trusts: Go runtime, testing/synctest quiescence, the SimReader/SimWriter doubles, go build -overlay faithfully replacing only the sync import of minify.go. Fault model fail-stop. Documents come from /repo's test tables, fuzz corpora, benchmarks plus a few built-in hosts."),
 }
 
 CHECKS["C12"] = dict(engine="libsim", level="exploration", design_ref="DESIGN.md §3 C12",
    technique="deterministic simulation: seeded scheduler over the real io.Pipe/goroutine wrappers (synctest quiescence), all chunk compositions of short inputs, tape-drawn partitions/pacing for long ones, oracle = plain sequential call",
-   text="Every entry point (Bytes, String, Reader, Writer, ResponseWriter, Middleware, MiddlewareWithError, Match, chunked plain call) is run on real code under a seeded scheduler that decides every interleaving of producer writes, minifier goroutine and consumer reads; all 2^(n-1) chunk compositions of the short inputs, random partitions (incl. empty and 1-byte chunks) of corpus documents of all six types plus a streaming and a failing stub minifier. Bytes and error must equal the plain call; output complete and no later write at the event 'Close returned'; HTTP: no stale Content-Length, status forwarded, minifier chosen by Content-Type else path extension, pass-through when none. Sampling of schedules and long-input partitions, exhaustive only for the short-input compositions.",
+   text="Every entry point (Bytes, String, Reader, Writer, ResponseWriter, Middleware, MiddlewareWithError, Match, chunked plain call) is run on real code under a seeded scheduler that decides every interleaving of producer writes, minifier goroutine and consumer reads; all 2^(n-1) chunk compositions of the short inputs, random partitions (incl. empty and 1-byte chunks) of corpus documents of all six types plus a streaming and a failing stub minifier; documents with a byte order mark; HTTP requests with and without Range / conditional / Accept-Encoding headers, methods, 1xx early hints; one registry in four has a fallback pattern that serves untyped responses. Bytes and error must equal the plain call; output complete and no later write at the event 'Close returned'; HTTP: no stale Content-Length, status forwarded, minifier chosen by Content-Type else path extension, pass-through when none. Sampling of schedules and long-input partitions, exhaustive only for the short-input compositions.",
    note="Trusts: Go runtime, testing/synctest, the doubles; SimResponseWriter is a stub of net/http that models only header freezing. Reference is computed by the same tree (plain call), so this check cannot see a bug that changes the plain call identically.")
 
 CHECKS["C13"] = dict(engine="libsim", level="exploration", design_ref="DESIGN.md §3 C13",
@@ -46,16 +46,16 @@ CHECKS["C20"] = dict(engine="clisim", level="fault_enumeration", design_ref="DES
 
 CHECKS["C19"] = dict(engine="clisim", level="exploration", design_ref="DESIGN.md §3 C19",
    technique="deterministic simulation of the real cmd/minify under os/io facades (overlay): seeded worker schedules, plan-chosen io buffer sizes, errno injection; file system, stdout and exit status compared with an executable model built from library calls",
-   text="Generated directory trees and invocation shapes from the README's grammar are run through the real command (worker pool under a seeded scheduler, two schedules per multi-task scenario, io.ReadAll/io.Copy buffer sizes chosen by the plan); afterwards every destination must hold exactly the library's bytes for its type (original bytes when the library rejects the input, verbatim copy in sync mode, minified concatenation with the documented separator for bundles), stdout likewise, exit status non-zero iff a selected file failed, no other path changed, no leftover .bak, refused invocations write nothing. One run in three additionally injects an errno (ENOSPC, EIO, EACCES, EMFILE, EINTR; once, a few times - exercising the retry loops - or permanently) into an operation the command handles (open, truncating open, rename, mkdirall, write, read, close, remove); then only 'no other file modified' and 'inputs not harmed' are judged. Shapes include template file types, failing contents rewritten in place before the error, in-place directories spelled differently, directories with more files than workers plus channel capacity, odd file names. Sampling of trees, shapes and schedules.",
+   text="Generated directory trees and invocation shapes from the README's grammar are run through the real command (worker pool under a seeded scheduler, two schedules per multi-task scenario, io.ReadAll/io.Copy buffer sizes chosen by the plan); afterwards every destination must hold exactly the library's bytes for its type (original bytes when the library rejects the input, verbatim copy in sync mode, minified concatenation with the documented separator for bundles), stdout likewise, exit status non-zero iff a selected file failed, no other path changed, no leftover .bak, refused invocations write nothing. One run in three additionally injects an errno (ENOSPC, EIO, EACCES, EMFILE, EINTR; once, a few times - exercising the retry loops - or permanently) into an operation the command handles (open, truncating open, rename, mkdirall, write, read, close, remove); then only 'no other file modified' and 'inputs not harmed' are judged. Shapes include template file types, failing contents rewritten in place before the error, in-place directories spelled differently, directories with more files than workers plus channel capacity, odd file names, every documented minifier flag plus --url and --mime, -p values, worker pools of 4/6/9/16 (CPU affinity of the child), destinations that exist before the run, files of 4-5 MiB, large files rejected only at their last byte; the injected error lands on one of the first occurrences of an operation or on the last / a random occurrence on one path of the fault-free trace. Sampling of trees, shapes and schedules.",
    note="Trusts: the model of destinations (written from cmd/minify/README.md; shapes it does not pin are not judged), library calls of the same tree for contents, the os/io facades covering every FS access (AST scan, exit 2 otherwise), kernel FS semantics of the scratch tmpfs.")
 
 CHECKS["C10"] = dict(engine="libsim", level="exploration", design_ref="DESIGN.md §3 C10",
    technique="deterministic simulation with fault injection on the stream and collaborator seams: seeded stream faults (truncate, drop/duplicate/swap chunk, flip byte, reader/writer failure) applied to corpus documents through every entry point, wrappers under the seeded scheduler; crash/hang monitors; tape replay and shrinking",
-   text="PARTIAL CLAIM: only the part of C10 that stream faults and failing collaborators reach. Documents from the tree's tests, corpora and benchmarks are delivered cut short, with chunks lost, duplicated (up to 64 times) or swapped, bytes flipped, with a reader or writer that starts failing, optionally embedded in an HTML host, through Minify/Bytes/String/Reader/Writer and direct package calls with default and extreme options (all Keep* flags, precisions incl. MaxInt/MinInt). Judged: no panic, the call returns (deadlock detection, step budget, wall-clock watchdog confirmed by solitary replay), output volume bounded, Bytes/String return the caller's data unchanged on error. Not claimed: arbitrary byte strings (fuzzing), memory growth, wall-time proportionality (a known quadratic-time input of the pinned HTML minifier and seeded change c10-w3a are NOT detected, see DESIGN.md §8.4).",
+   text="PARTIAL CLAIM: only the part of C10 that stream faults and failing collaborators reach. Documents from the tree's tests, corpora and benchmarks are delivered cut short, with chunks lost, duplicated (up to 64 times, short ones thousands of times) or swapped, bytes flipped, byte ranges or whole tokens of another document of the same type spliced in, with a reader or writer that starts failing, optionally embedded in an HTML host, through Minify/Bytes/String/Reader/Writer and direct package calls with default and extreme options (all Keep* flags, precisions incl. MaxInt/MinInt). Judged: no panic, the call returns (deadlock detection, step budget, wall-clock watchdog confirmed by solitary replay), output volume bounded, Bytes/String return the caller's data unchanged on error. One case in 16 drives the exported look-ahead buffers (html/svg/xml TokenBuffer) with a seeded Peek(k)/Shift history and compares every returned token with the token list of a second lexer (reference model), k up to 340. Not claimed: arbitrary byte strings (fuzzing), memory growth, wall-time proportionality (a known quadratic-time input of the pinned HTML minifier and seeded change c10-w3a are NOT detected, see DESIGN.md §8.4).",
    note="Trusts: Go runtime, testing/synctest, the doubles. The hang watchdog is wall-clock (60 s for cases that take milliseconds) and only reported after a solitary replay hangs again; otherwise exit 2.")
 CHECKS["C11"] = dict(engine="libsim", level="exploration", design_ref="DESIGN.md §3 C11",
    technique="deterministic simulation of the host/embedded-minifier interaction through the registry seam: recording, identity, absent and failing stub sub-minifiers registered through the public API (fault injection at the collaborator), recorded call history checked against the host construction; tape replay and shrinking",
-   text="PARTIAL CLAIM: the interaction between a host minifier and the registry (who is called, with what, what happens when the callee is absent or fails), not the product space of host documents. Template-built HTML/SVG/CSS hosts with known payload spans (script/style/iframe/svg/math, style= and on*=, data: URIs, SVG style text/CDATA/attribute, HTML>SVG>CSS nesting); each embedded media type is independently real, absent, recording, identity or failing-on-nth-call. The recorded dispatch history must equal the prediction (type from the type attribute or documented default, exact payload, inline=1 for attributes, document order, nothing else); stub output substituted in order; real minifiers commute with standalone calls; absent => pass-through; failing => outer call returns that error; real syntax error => located inside the construct.",
+   text="PARTIAL CLAIM: the interaction between a host minifier and the registry (who is called, with what, what happens when the callee is absent or fails), not the product space of host documents. Template-built HTML/SVG/CSS hosts with known payload spans (script/style/iframe/svg/math with and without type/src/async/nonce attributes and pre/div wrappers, style= and on*=, data: URIs quoted and unquoted, SVG style text/CDATA/attribute with the default style type or one named by contentStyleType, HTML>SVG>CSS nesting); each embedded media type is independently real, absent, recording, identity or failing-on-nth-call. The recorded dispatch history must equal the prediction (type from the type attribute or documented default, exact payload, inline=1 for attributes, document order, nothing else); stub output substituted in order; real minifiers commute with standalone calls; absent => pass-through; failing => outer call returns that error; real syntax error => located inside the construct.",
    note="Trusts: the template family and its model of documented defaults; payloads avoid characters the host must re-escape (host escaping belongs to C03). One known finding (failure inside a data: URI is swallowed) is listed in known_findings.json.")
 
 PENDING = {}
